@@ -290,7 +290,8 @@ class Real:
                 try:
                     core.with_timeout(lambda: app.emit(args[0]))
                 except KeyError:
-                    err = 'KeyError'
+                    # the unknown event name; a KeyError out of a hook (it edits an unknown hook name) is the hook's exception
+                    err = 'KeyError' if not self.events else 'Exception'
                 except core.Hang:
                     raise
                 except Exception:
@@ -1175,7 +1176,7 @@ RA_NOTE = ('registration surface: `app.<verb>(rule, cb)` with the callback as se
            'code, proposed_fixes/regapi-shortcut-positional-callback.patch; a falsy callable is treated as "no callback"')
 
 
-def install(cls, quick=(330, 260), thorough=(9000, 5000)):
+def install(cls, quick=(330, 260), thorough=(5000, 4000)):
     """adds the registration stream to check class `cls`: table, anchors, correspondence, oracle, replay"""
     pid = cls.pid
     cls.tables = list(cls.tables) + ['regapi']
